@@ -25,10 +25,19 @@ EXPLANATION = ("Theorems C05_* prove for ALL class lists without duplicates, sam
                "per-class metrics and their as_dict form are permutation-equivariant, and accuracy = trace/population. "
                "The correspondence run builds real ConfusionMatrix objects by all four routes, compares matrices, classes, "
                "one_vs_all cells, 20 per-class metrics (+CIs, aliases, as_dict, shapes) with the model and evaluates the "
-               "Lean spec predicates on the observed values; error branches are compared as exceptions.")
+               "Lean spec predicates on the observed values; error branches are compared as exceptions. "
+               "Second tie, for one_vs_all and the construction loop: harness/cmdefs.py translates the current cm.py (Python ast) "
+               "into (k) the four one-vs-all cells as expressions over M[j,j], rowsum_j, colsum_j, total and (m) the loop of "
+               "_assign_from_predictions as a row of data (SA/Model/CmDefs.lean); the generated theorems generated_c05_ova_ok / "
+               "generated_c05_cons_ok (kernel-checked on every run) state the checker's verdicts, and SA.CmDefs.checkOva_ok_sound / "
+               "ova_bridge / cons_bridge_entries make an accepted row the model's oneVsAll / fromPredictions on EVERY rational matrix "
+               "of every size / every sample list (coverage.generated_definitions).")
 TRUSTED_BASE = ["Lean 4.33 kernel", "axioms propext/Classical.choice/Quot.sound only",
                 "hand-written model SA/Model/Multiclass.lean tied to /repo by this correspondence run",
                 "hashable class labels mapped to Nat codes by the harness (order-preserving for default classes)",
+                "harness/cmdefs.py (translation Python ast -> one-vs-all cells / construction row: `...` indexing, np.sum axes, "
+                "np.diagonal, buffer writes and reads, np.stack, the zip order of the loop, the index map comprehension); values only - "
+                "dtypes, leading axes beyond `...`, warnings, result types are the business of the sampled runs",
                 "pandas .loc / numpy indexing by documented meaning; tolerance 1e-9 relative on float-weight sums, "
                 "1e-12 on quotients; harness and driver parsing"]
 ASSUMPTIONS = ["positive finite weights, non-negative finite matrix entries",
@@ -58,9 +67,39 @@ def n_cases(tier):
 
 
 # --------------------------------------------------------------------------------------
+# second tie: one_vs_all and the construction loop regenerated from the source on every run (harness/cmdefs.py ->
+# generated Lean file, rows compared with the model's by the kernel; soundness: SA/Theorems/C05Defs.lean)
+# --------------------------------------------------------------------------------------
+def extra_gate_start():
+    """start the translator + Lean check in a child process; the sampled cases run meanwhile"""
+    import cmdefs
+    return cmdefs.start(common.REPO)
+
+
+def extra_gate_finish(handle):
+    """-> {problems, theorems, obligations, discharged, notes, evidence, evidence_key}; a definite mismatch (a translated cell /
+    the construction row differs from the model on a named witness input) is a broken proof obligation (run.py then searches
+    the generated cases for a failing input: matrices of distinct primes and weighted repeated (label, prediction) pairs
+    separate any two rows), unknowns are evidence only"""
+    import cmdefs
+    return cmdefs.gate_result(cmdefs.finish(handle))
+
+
+SEPARATING_PRIMES = [2, 3, 5, 7, 11, 13, 17, 19, 23, 29, 31, 37, 41, 43, 47, 53, 59, 61, 67, 71, 73, 79, 83, 89, 97]
+
+
+# --------------------------------------------------------------------------------------
 # generation
 # --------------------------------------------------------------------------------------
 def gen_matrix(rng, n, kind):
+    if kind == "int" and rng.random() < 0.15:
+        # n*n DISTINCT primes in random order, each cell zeroed independently with probability 1/5: two different integer
+        # combinations of M[j,j], rowsum_j, colsum_j, total (a swapped FN / FP cell, a TN that forgets the diagonal) take
+        # different values on such a matrix, so a wrong one_vs_all cell reported by the generated gate (harness/cmdefs.py)
+        # is also met with a concrete failing input here
+        ps = rng.sample(SEPARATING_PRIMES, n * n)
+        return [[(ps[a * n + b] if rng.random() >= 0.2 else 0) for b in range(n)] for a in range(n)]
+
     def cell():
         if kind == "int":
             return rng.choice([0, 0, 1, 2, 3, 7, 20, rng.randint(0, 100)])
@@ -505,6 +544,9 @@ def build(inp) -> Case:
     tags = [inp["ctype"], "w=" + inp["wkind"], inp["mode"], f"ndim={len(shape)}", "err=" + inp["err"], f"N={len(universe)}"]
     if shape == [0]:
         tags.append("empty-stack")
+    if inp["skind"] == "int" and any(len({c for r in m for c in r if c}) >= 3 and all(c in SEPARATING_PRIMES for r in m for c in r if c)
+                                     for m in inp["stack"]):
+        tags.append("separating-primes")
     judges = list(ctx.judges)
 
     def judge(outs):
